@@ -68,6 +68,46 @@ func main() {
 		}
 		dump := d.U.DumpEntities()
 		variant := r.Intn(4)
+		// checkpoint mode: the dump is a snapshot - the source world keeps changing (removals, recycled IDs)
+		// before the dump is loaded, and the loaded world must still reproduce the state at dump time
+		checkpoint := r.Chance(40)
+		type snap struct {
+			h     ecs.Entity
+			alive bool
+		}
+		var atDump []snap
+		for i := m.Epoch0; i < len(m.Ents); i++ {
+			if !d.H[i].IsZero() {
+				atDump = append(atDump, snap{d.H[i], m.Ents[i].Alive})
+			}
+		}
+		usedAtDump := m.NAlive
+		if checkpoint {
+			res.Counters["checkpoint-dumps"]++
+			var extra []ecs.Entity
+			for k := 0; k < 3+r.Intn(30); k++ {
+				switch r.Intn(3) {
+				case 0:
+					extra = append(extra, d.W.NewEntity())
+				default:
+					// remove an entity that was alive at dump time, or one created since
+					if len(extra) > 0 && r.Chance(40) {
+						j := r.Intn(len(extra))
+						d.W.RemoveEntity(extra[j])
+						extra = append(extra[:j], extra[j+1:]...)
+					} else {
+						for tries := 0; tries < 5 && len(atDump) > 0; tries++ {
+							s := atDump[r.Intn(len(atDump))]
+							if d.W.Alive(s.h) {
+								d.W.RemoveEntity(s.h)
+								break
+							}
+						}
+					}
+				}
+				res.Counters["source-ops-after-dump"]++
+			}
+		}
 		desc := []string{d.Cfg.String(), fmt.Sprintf("alive=%d issued=%d pool=%d next=%d available=%d variant=%d", m.NAlive, len(m.Ents)-m.Epoch0, len(dump.Entities), dump.Next, dump.Available, variant)}
 		// the dump may go through JSON
 		if variant%2 == 1 {
@@ -102,23 +142,37 @@ func main() {
 		if p := try(func() { w2.Unsafe().LoadEntities(&dump) }); p != nil {
 			msgs = append(msgs, fmt.Sprintf("LoadEntities panicked: %v", p))
 		} else {
-			// alive/dead status of every handle issued in the source world's current epoch
-			for i := m.Epoch0; i < len(m.Ents); i++ {
-				h := d.H[i]
-				if h.IsZero() {
-					continue
-				}
+			// alive/dead status of every handle issued in the source world's current epoch, as of dump time
+			for _, s := range atDump {
 				res.Counters["handles-compared"]++
-				if w2.Alive(h) != m.Ents[i].Alive || d.W.Alive(h) != m.Ents[i].Alive {
-					msgs = append(msgs, fmt.Sprintf("handle %v: source Alive=%v, loaded Alive=%v, model %v", h, d.W.Alive(h), w2.Alive(h), m.Ents[i].Alive))
+				if w2.Alive(s.h) != s.alive || (!checkpoint && d.W.Alive(s.h) != s.alive) {
+					msgs = append(msgs, fmt.Sprintf("handle %v: source Alive=%v, loaded Alive=%v, at dump time %v (checkpoint=%v)", s.h, d.W.Alive(s.h), w2.Alive(s.h), s.alive, checkpoint))
 				}
 			}
-			if a, b := d.W.Stats().Entities, w2.Stats().Entities; a.Used != b.Used || a.Recycled != b.Recycled || a.Total != b.Total {
-				msgs = append(msgs, fmt.Sprintf("entity statistics differ after load: source %+v loaded %+v", a, b))
+			if b := w2.Stats().Entities; b.Used != usedAtDump {
+				msgs = append(msgs, fmt.Sprintf("loaded world reports %d alive entities, %d were alive at dump time", b.Used, usedAtDump))
+			}
+			if n := func() int {
+				q := ecs.NewFilter0(w2).Query()
+				k := 0
+				for q.Next() {
+					k++
+				}
+				return k
+			}(); n != usedAtDump {
+				msgs = append(msgs, fmt.Sprintf("a query over the loaded world visits %d entities, %d were alive at dump time", n, usedAtDump))
+			}
+			if !checkpoint {
+				if a, b := d.W.Stats().Entities, w2.Stats().Entities; a.Used != b.Used || a.Recycled != b.Recycled || a.Total != b.Total {
+					msgs = append(msgs, fmt.Sprintf("entity statistics differ after load: source %+v loaded %+v", a, b))
+				}
 			}
 			// lockstep creations and removals
 			n := 1 + r.Intn(200)
 			var created []ecs.Entity
+			if checkpoint {
+				n = 0 // the source has moved on; lockstep comparison applies to immediate loads only
+			}
 			for i := 0; i < n && len(msgs) == 0; i++ {
 				switch r.Intn(6) {
 				case 0: // batch creation
